@@ -3,7 +3,7 @@
 A case is an async scope (sometimes with a nested async scope) whose body spawns up to 4 tasks through
 ctx.spawn - directly, from inside nested sync scopes / updates, or from a spawned task (grandchildren).
 Task scripts: finish at once | after a gate | fail at once | fail after a gate | block forever (until
-cancelled) | spawn a grandchild and then one of those. The body ends by return / raise / external
+cancelled) | spawn a grandchild at once or only after having been released, and then wait. The body ends by return / raise / external
 cancellation; gates in the body and in the tasks are released in every order (DFS, random beyond a cap).
 "Block forever" tasks are only generated where the group is bound to be aborted (failing/cancelled body or a
 failing sibling), so a correct implementation always terminates.
@@ -36,7 +36,7 @@ ID = "C06"
 LEVEL = "fault_enumeration"
 TECHNIQUE = "fault/schedule enumeration of spawn programs (gate scheduler DFS) with done()-at-exit sampling and quiescence (hang) detection"
 RULE = (
-    "cases = (program: spawn sites x task scripts x body outcome, schedule); programs with <= 2 tasks are enumerated completely (6 scripts x 3 spawn sites x 4 body outcomes), "
+    "cases = (program: spawn sites x task scripts x body outcome, schedule); programs with <= 2 tasks are enumerated completely (8 scripts x 3 spawn sites x 4 body outcomes), "
     "3-4 task programs with grandchildren and a nested async scope are sampled; schedules by DFS up to a cap, random beyond; non-trivial = at least one task was still pending "
     "when the body ended; distinct by (program, schedule hash)"
 )
@@ -53,7 +53,7 @@ LEVEL_TEXT = (
 )
 LEVEL_NOTE = "Trusted: lexical owner attribution of spawn sites (innermost enclosing async scope, inherited by spawned tasks), gate scheduler, VirtualLoop quiescence detection."
 
-SCRIPTS = ("now", "gate", "fail", "gate-fail", "forever", "spawn-now", "spawn-gate")
+SCRIPTS = ("now", "gate", "fail", "gate-fail", "forever", "spawn-now", "spawn-gate", "gate-spawn-gate")
 SITES = ("plain", "sscope", "updated")
 BODIES = ("return", "raise-exc", "cancel-self", "raise-base")
 DFS_CAP = {"quick": 60, "thorough": 400}
@@ -71,6 +71,10 @@ def script_steps(script: str, name: str, owner: str, counter: Any) -> list[dict[
         return [{"op": "gate", "label": f"{name}.g"}, {"op": "fail", "tag": name}]
     if script == "forever":
         return [{"op": "forever", "tag": name}]
+    if script == "gate-spawn-gate":
+        # the task spawns its own child only after it was released - possibly after the body has already left the block
+        g2 = f"{name}.gc{next(counter)}"
+        return [{"op": "gate", "label": f"{name}.g0"}, {"op": "spawn", "via": "ctx", "name": g2, "owner": owner, "body": script_steps("gate", g2, owner, counter)}, {"op": "gate", "label": f"{name}.g"}]
     sub = "now" if script == "spawn-now" else "gate"
     g = f"{name}.gc{next(counter)}"
     return [{"op": "spawn", "via": "ctx", "name": g, "owner": owner, "body": script_steps(sub, g, owner, counter)}, {"op": "gate", "label": f"{name}.g"}]
@@ -94,13 +98,18 @@ def build(case: dict[str, Any]) -> list[dict[str, Any]]:
         body.append({"op": "block", "kind": "ascope", "name": "inner", "supply": [], "body": inner_body, "exit": {"kind": case.get("inner_exit", "return")}, "catch": True})
     if case.get("body_gate", True):
         body.append({"op": "gate", "label": "blk.body"})
-    return [{"op": "block", "kind": "ascope", "name": "blk", "supply": [["R1", 1]], "body": body, "exit": {"kind": case["body"]}, "catch": True}]
+    blk: dict[str, Any] = {"op": "block", "kind": "ascope", "name": "blk", "supply": [["R1", 1]], "body": body, "exit": {"kind": case["body"]}, "catch": True}
+    if case.get("disp"):
+        # the scope also owns disposables; their cleanup may fail or suspend - the spawned tasks must still not outlive the block
+        blk["disposables"] = [{"yield": [], "enter": "ok", "exit": ex} for ex in case["disp"]]
+    return [blk]
 
 
 def will_abort(case: dict[str, Any], inner: bool) -> bool:
     scripts = [s for s, _, i in case["tasks"] if i == inner]
     exit_kind = case.get("inner_exit", "return") if inner else case["body"]
-    return exit_kind != "return" or any(s in ("fail", "gate-fail") for s in scripts)
+    failing_cleanup = (not inner) and any("raise" in ex for ex in (case.get("disp") or []))
+    return exit_kind != "return" or failing_cleanup or any(s in ("fail", "gate-fail") for s in scripts)
 
 
 def valid(case: dict[str, Any]) -> bool:
@@ -171,9 +180,14 @@ def judge(R: Recorder, case: dict[str, Any], chooser: Chooser, W: World, status:
         if blk in W.block_phase and blk not in snap:
             R.monitor("children-done-at-exit", False, where={**w0, "kind": "exit-not-observed"}, detail=f"block {blk} never reported its exit; events={ev}", case=rec)
     # nothing but the scripted faults may come out of a block (a failing ctx.spawn would show up here)
-    from hv.gen.programs import BodyBase, BodyExc
+    from hv.gen.programs import BodyBase, BodyExc, DispBase, DispErr
 
-    odd = {b: e for b, e in W.caught.items() if e is not None and not isinstance(e, (BodyExc, BodyBase, asyncio.CancelledError))}
+    def scripted(e: BaseException) -> bool:
+        if isinstance(e, BaseExceptionGroup):
+            return all(scripted(x) for x in e.exceptions)
+        return isinstance(e, (BodyExc, BodyBase, asyncio.CancelledError, DispErr, DispBase))
+
+    odd = {b: e for b, e in W.caught.items() if e is not None and not scripted(e)}
     R.monitor("no-unexpected-error", not odd, where={**w0, "kind": "unexpected-error", "error": next(iter(type(e).__name__ for e in odd.values()), None)},
               detail=f"blocks raised unscripted errors: {odd!r}; events={ev}", case=rec)
     # forever blockers must have been cancelled
@@ -236,9 +250,17 @@ def cases(tier: str, rng: random.Random):  # noqa: ANN201
                     case = {"tasks": [[s, site, False] for s, site in zip(scripts, sites)], "body": body}
                     if valid(case):
                         yield case
+    for body in BODIES:
+        for disp in (["raise"], ["gate-raise"], ["gate"], ["raise", "gate-raise"], ["raise-base"]):
+            for scripts in (("gate",), ("forever",), ("gate", "now"), ("spawn-gate",)):
+                case = {"tasks": [[s, "plain", False] for s in scripts], "body": body, "disp": disp}
+                if valid(case):
+                    yield case
     for _ in range(SAMPLE[tier]):
         n = rng.randint(2, 4)
         case = {"tasks": [[rng.choice(SCRIPTS), rng.choice(SITES), rng.random() < 0.35] for _ in range(n)], "body": rng.choice(BODIES), "inner_exit": rng.choice(["return", "return", "raise-exc", "cancel-self"]), "body_gate": rng.random() < 0.8}
+        if rng.random() < 0.3:
+            case["disp"] = [rng.choice(["ok", "gate", "raise", "gate-raise"]) for _ in range(rng.randint(1, 2))]
         if valid(case):
             yield case
 
@@ -263,7 +285,7 @@ def explore(R: Recorder, case: dict[str, Any], rng: random.Random, cap: int) -> 
 
 
 def run(R: Recorder, tier: str, seed: int, shard: int, nshards: int) -> None:
-    R.flags["exhaustive_core"] = "all programs with <= 2 spawned tasks (7 scripts x 3 spawn sites x 4 body outcomes) x all gate-release orders (capped)"
+    R.flags["exhaustive_core"] = "all programs with <= 2 spawned tasks (8 scripts x 3 spawn sites x 4 body outcomes) x all gate-release orders (capped)"
     if shard == 0:
         detached(R)
     rng_cases = random.Random(f"C06/{seed}")
